@@ -40,7 +40,8 @@ EXPLANATION = (
     "complete the rename removes it. (U3) the written bytes have provenance request.content. "
     "(U4/U5) sibling agreement of the target computation; titan_* settings are wired to the "
     "like-named constructor parameters. OS fault behaviour itself and races are not decided. "
-    "(U6) The protocol machine finds no second upload-handler invocation / chain consultation over any activation sequence, and the content handed over is buffer[:size] (C07.S2)."
+    "(U6) The protocol machine finds no second upload-handler invocation / chain consultation over any activation sequence, and the content handed over is buffer[:size] (C07.S2). "
+    "(U5, values) the configured upload size limit reaches the handler unchanged (abstract evaluation with 0)."
 )
 
 HANDLER = "server.handler:FileUploadHandler"
